@@ -30,6 +30,8 @@ DESC_DEFS = {
                     ("boolean", "flag"), ("uint16", "small")]),
     "y": ("c17/y", [("varint", "seq"), ("string", "tag"), ("string[]", "items")]),
     "z": ("c17/nested/z", [("string", "tag"), ("varint", "seq"), ("record", "inner"), ("record[]", "more")]),
+    # shape h carries the data fields that path templates refer to ({record.host}, {record.n})
+    "h": ("c17/h", [("string", "tag"), ("varint", "seq"), ("string", "host"), ("varint", "n")]),
 }
 
 # adapter kinds.  fam = reader family, codec = compression of the file, shapes = descriptor shapes the format can hold
@@ -83,9 +85,11 @@ def _flat(rng, i, prefix="T"):
     return descriptor("x")(**kw)
 
 
-def make_record(rng, i, shape, generated=None):
+def make_record(rng, i, shape, generated=None, extra=None):
     if shape == "x":
         r = _flat(rng, i)
+    elif shape == "h":
+        r = descriptor("h")(tag=_tag(rng, i), seq=i, **(extra or {}))
     elif shape == "y":
         items = None if rng.random() < 0.3 else ["i%d" % rng.randrange(100) for _ in range(rng.randint(0, 3))]
         r = descriptor("y")(seq=i, tag=_tag(rng, i), items=items)
@@ -95,17 +99,26 @@ def make_record(rng, i, shape, generated=None):
         r = descriptor("z")(tag=_tag(rng, i), seq=i, inner=inner, more=more)
     if generated is not None:
         r._generated = generated
+        if shape == "z":  # nested records carry their own _generated
+            for sub in ([r.inner] if r.inner is not None else []) + list(r.more or []):
+                sub._generated = generated
     return r
 
 
-def make_records(seed, n, shapes, generated=None):
-    """n records; the shape of each is drawn from `shapes` (a format that holds one type only gets a single shape)."""
+def make_records(seed, n, shapes, generated=None, extra=None):
+    """n records; the shape of each is drawn from `shapes` (a format that holds one type only gets a single shape).
+    generated: per-record _generated; extra: per-record field values for shape h."""
     rng = random.Random(seed)
     out = []
     for i in range(n):
         g = generated[i] if generated is not None else None
-        out.append(make_record(rng, i, rng.choice(shapes), g))
+        out.append(make_record(rng, i, rng.choice(shapes), g, extra[i] if extra is not None else None))
     return out
+
+
+def fixed_generated(n):
+    """Deterministic _generated values, so that a worker process and its parent build identical records."""
+    return [_dt.datetime(2024, 1, 2, 3, 4, 5, 678, tzinfo=UTC) + _dt.timedelta(seconds=i) for i in range(n)]
 
 
 def observe_all(records):
